@@ -421,7 +421,8 @@ class Prover:
         os.write(fd, smt.encode())
         os.close(fd)
         tsec = max(2, self.timeout_ms // 1000)
-        csec = 3 * tsec        # cvc5 decides the sequence/quantifier obligations z3 leaves open; give it room
+        csec = max(3 * tsec, 60)   # cvc5 decides the sequence/quantifier obligations z3 leaves open; give it room
+        # (the slowest such obligation takes ~25 s on an idle machine: the floor keeps its verdict stable under load)
         try:
             for be, cmd, lim in (("cvc5", ["/usr/bin/cvc5", "--strings-exp", "--tlimit=%d" % (csec * 1000), path], csec),
                                  ("z3-new", ["z3-new", "-T:%d" % tsec, path], tsec)):
